@@ -43,6 +43,8 @@ func (x *Exec) constToSort(c ConstV, s *Sort) Term {
 		return t
 	case SStr:
 		return x.vc.strLit(constant.StringVal(c.V))
+	case SErr:
+		return tErrNil
 	}
 	panic("constToSort: " + s.String())
 }
@@ -812,6 +814,13 @@ func (x *Exec) unifyOperands(lv, rv Value, lt, rt types.Type, st *State) (Value,
 	if lok && rok && !l.T.Eq(r.T) {
 		if l.T.isIntLike() && r.T.isIntLike() {
 			return lv, rv
+		}
+		// untyped nil against error / other zero-comparable sorts
+		if r.S == "0" && r.T.K == SRef {
+			return lv, zeroOf(l.T)
+		}
+		if l.S == "0" && l.T.K == SRef {
+			return zeroOf(r.T), rv
 		}
 		// interface compared with concrete value etc.
 		if l.T.K == SBV && r.T.K == SBV {
